@@ -8,7 +8,7 @@ from ..oracles import pyfront
 ID = "C04"
 LEVEL = "exploration"
 BUDGET = {"quick": 150, "thorough": 1500}
-EXAMPLES = {"quick": 110, "thorough": 2500}
+EXAMPLES = {"quick": 200, "thorough": 2500}
 RULE = ("algebra: valid frozen-corpus chunks (layout mutators) and generated programs x 8 cursors per case drawn from "
         "{inside/end of an identifier token, after '.', after '(' or ',', after 'import '/'from '} x {full text, text "
         "truncated at the cursor = code being typed} x {fuzzy, non-fuzzy}; the fragment is computed from CPython's "
